@@ -5,7 +5,7 @@ set -u
 export GOFLAGS=-mod=mod GOPROXY=off GOSUMDB=off GOTOOLCHAIN=local
 cd /verif
 SEEDS=${@:-$(ls seeded)}
-WT=/tmp/seedmatrix-wt; OUT=/tmp/seedmatrix-out
+WT=/tmp/seedmatrix-wt.$$; OUT=/tmp/seedmatrix-out.$$   # per invocation: two matrices may run side by side
 git -C /repo worktree remove --force $WT 2>/dev/null; rm -rf $OUT; mkdir -p $OUT
 git -C /repo worktree add --detach $WT HEAD -q || exit 2
 trap 'git -C /repo worktree remove --force '$WT' 2>/dev/null; rm -rf '$OUT EXIT
